@@ -253,10 +253,19 @@ func c14CallW(s *zap.SugaredLogger, lvl zapcore.Level, viaLogw bool, msg string,
 
 func propC14Args(t *rapid.T) {
 	n := rapid.IntRange(0, 9).Draw(t, "nArgs")
+	if rapid.IntRange(0, 29).Draw(t, "longList") == 0 {
+		n = rapid.SampledFrom([]int{17, 18, 19, 33, 40, 65}).Draw(t, "longListLen") // more pairs than any pre-sized scratch slice
+	}
 	cargs := make([]c14Arg, n)
 	args := make([]any, n)
 	for i := range cargs {
-		cargs[i] = genC14Arg(t)
+		if n > 9 && rapid.Bool().Draw(t, "badKeyHere") {
+			// long lists are rich in non-string keys (many invalid pairs in ONE call)
+			bad := []any{i, keyT(fmt.Sprintf("custom%d", i)), []int{i}, i%2 == 0, float64(i) + 0.5}
+			cargs[i] = c14Arg{"badkey", bad[rapid.IntRange(0, len(bad)-1).Draw(t, "badKey")]}
+		} else {
+			cargs[i] = genC14Arg(t)
+		}
 		args[i] = cargs[i].v
 	}
 	wantFields, wantDiags := c14Reference(args)
@@ -543,10 +552,18 @@ func propC14TwoCalls(t *rapid.T) {
 	s := c14Variant(t, zap.New(core, opts...).Sugar())
 	gen := func(label string) ([]c14Arg, []any) {
 		n := rapid.IntRange(1, 7).Draw(t, label)
+		if rapid.IntRange(0, 19).Draw(t, "longList") == 0 {
+			n = rapid.SampledFrom([]int{18, 24, 40}).Draw(t, "longListLen")
+		}
 		ca := make([]c14Arg, n)
 		as := make([]any, n)
 		for i := range ca {
-			ca[i] = genC14Arg(t)
+			if n > 9 && rapid.Bool().Draw(t, "badKeyHere") {
+				bad := []any{i, keyT(fmt.Sprintf("custom%d", i)), []int{i}, float64(i) + 0.5}
+				ca[i] = c14Arg{"badkey", bad[rapid.IntRange(0, len(bad)-1).Draw(t, "badKey")]}
+			} else {
+				ca[i] = genC14Arg(t)
+			}
 			as[i] = ca[i].v
 		}
 		return ca, as
